@@ -14,6 +14,13 @@
     (`stmt_list_designates(_v5)`, `stmt_list_absent`, `linetable_cache_coherent`), end to end
     (`line_program_end_to_end(_v5/_ext)`), `header_length` honoured (`line_header_length_honoured`), exact
     behaviour with zero divisors (`line_zero_division`, `line_rows_eq_std_ext`).
+  Seventh wave, from SECTION BYTES (composition with C04's `debug_info_exact`; see the section at the end):
+    `line_programs_from_sections` (every unit of `iter_CUs()` of a well-formed forest gets, through
+    `line_program_for_CU`, the program its top entry's DW_AT_stmt_list designates in the encoded `.debug_line` —
+    header, extent, rows —, hypotheses on the descriptions only), `stmt_list_absent_from_sections`,
+    `stmt_list_beyond_section`, `stmt_list_without_debug_line`, `linetable_cache_shared`; and from the BYTES OF A FILE
+    through C11's `view_of_file_z` (sections stored plain / gABI-compressed / `.zdebug`, any mix):
+    `line_programs_of_file_eq`, `line_programs_of_file`.
   Correspondence only (model == library on every run, no theorem): malformed input and the errors it raises
     (stream `raw`: truncation, `header_length` smaller than the known fields, forms §6.2.4.1 does not allow,
     version 5 tables without a first entry — the legacy views stay `None` —, DW_LNE_define_file in version 5,
@@ -29,6 +36,10 @@ import PyElf.Proofs.LineHeaderV5
 import PyElf.Proofs.LineUnitExt
 import PyElf.Model.Env
 import PyElf.Props.TieC05
+import PyElf.Props.TieC05Info
+import PyElf.Proofs.LineInfo
+import PyElf.Proofs.LineFile
+import PyElf.Props.C11
 namespace PyElf.Props.C05
 open PyElf PyElf.Spec PyElf.Spec.Line PyElf.Model.Line PyElf.Proofs.Line
 
@@ -601,5 +612,343 @@ theorem line_zero_division_instance :
         | .error e => e == .zeroDivision
         | .ok _ => false)
      | .error _ => false) = true := by decide +kernel
+
+/-! ## seventh wave: line programs from section bytes
+
+  The theorems above take the unit's DW_AT_stmt_list value and the unit's struct bundle as given.  Here they are
+  produced from the bytes of `.debug_info` / `.debug_abbrev` by C04's model (`Model/DieSection.lean`), under C04's
+  end-to-end theorem (`Props.C04.debug_info_exact`, `debug_info_units`; the top entry: C13's `forest_topDIE`):
+
+  * `F : Spec.C04.Forest` describes `.debug_abbrev` and `.debug_info` (any number of units of versions 2–5, both
+    formats, address sizes, whole trees of entries, shared abbreviation tables) and the string sections;
+    `C04.forestDInfo F dasz` is the `DWARFInfo` on ITS ENCODING with the regenerated registry and struct bundles.
+  * `L : List LineUnitDesc` with `tail` describes `.debug_line` (Spec/LineSection): programs of versions 2–5 in
+    any order, arbitrary bytes between them and behind the last; `lineWorld L tail sup` attaches its encoding
+    (and, with `sup = some b`, a supplementary object whose `.debug_str` is `b`).
+  * the top entry of a unit says which program is the unit's: `stmtRef` — DW_AT_stmt_list absent, or of class
+    lineptr (DW_FORM_sec_offset / data4 / data8, also behind DW_FORM_indirect) holding an offset.
+  * `linesOKB F L tail sup` (decidable, on the descriptions only): every program is encodable with the standard's
+    operand counts and instructions that divide by no zero field, in the file's byte order, version 5 programs
+    find `.debug_line_str` / `.debug_str`; every unit names no program or one of `L` by its offset, whose format
+    and address size are the unit's; sections shorter than 2^63.
+
+  `Model.LineInfo.infoLinePrograms` is `[(cu, dwarfinfo.line_program_for_CU(cu)) for cu in dwarfinfo.iter_CUs()]`
+  on a fresh `DWARFInfo`; `LP` is a `LineProgram` object with the `structs` it was created with (units of one file
+  differ in `structs`, `_linetable_cache` is keyed by offset alone); `decodeLP` its `_decode_line_program()`. -/
+
+open PyElf.Spec.LineSec PyElf.Model.LineInfo PyElf.Proofs.LineInfo
+open PyElf.Spec.C04 (Forest UnitDesc placeInfo infoUnitOf wfForestB)
+
+/-- what `line_program_for_CU` must give the unit `u` — `None` if its top entry has no DW_AT_stmt_list; otherwise the
+    `LineProgram` object `x` of the program `d` lying at the offset the attribute holds: the described header, the
+    extent `header_length` / `unit_length` prescribe, and decoding `x` yields the rows of the standard's state machine
+    and stops exactly at the program's end, DW_LNE_define_file entries appended to the file table -/
+def UnitGets (F : Forest) (L : List LineUnitDesc) (tail : Bytes) (sup : Option Bytes) (u : UnitDesc) (r : R (Option LP)) : Prop :=
+  match stmtRef u.tree.root with
+  | .absent => r = .ok none
+  | .at v => ∃ i d, L[i]? = some d ∧ v = lineOff L i ∧ ∃ x entries, r = .ok (some x)
+      ∧ x.lp.header = d.h.observeX (strSecsOf F sup) d.ext d.body
+      ∧ x.lp.program_start_offset = v + headerSizeX d.h d.ext
+      ∧ x.lp.program_end_offset = v + d.enc.length
+      ∧ decodeLP Model.genEnumDecode specConsts (encLineSec L tail) x
+          = .ok (entries, x.lp.fileEntry.map (· ++ (definedFiles d.is).map FileEntry.obs), x.lp.program_end_offset)
+      ∧ rowsOf entries = stdRun d.h.p d.is
+  | .other => False
+
+/-- … for all units: the result list has one item per described unit, in order, carrying the described unit object -/
+def UnitsGet (F : Forest) (L : List LineUnitDesc) (tail : Bytes) (sup : Option Bytes)
+    (res : List (Model.Lookup.CU × R (Option LP))) : Prop :=
+  res.length = F.units.length
+    ∧ ∀ (k : Nat) (p : Nat × UnitDesc), (placeInfo F 0 F.units)[k]? = some p →
+        ∃ r, res[k]? = some (Proofs.Lookup.cuOf F.le p.1 (infoUnitOf F p.2), r) ∧ UnitGets F L tail sup p.2 r
+
+/-- **End to end from section bytes.**  For every well-formed forest and every fitting `.debug_line` description:
+    `iter_CUs()` yields the described units, no exception ends it, and `line_program_for_CU(cu)` gives every unit
+    what `UnitGets` says (header field by field — all versions; v5 entry formats, resolved strings, legacy views —,
+    extent, rows).  Programs shared by several units come from `_linetable_cache` (same result, see
+    `linetable_cache_shared`). -/
+theorem line_programs_from_sections (F : Forest) (dasz : Nat) (hdasz : dasz = 4 ∨ dasz = 8)
+    (hwf : wfForestB C04.genNames F = true) (L : List LineUnitDesc) (tail : Bytes) (sup : Option Bytes)
+    (hlines : linesOKB F L tail sup = true) :
+    ∃ res, infoLinePrograms (C04.forestDInfo F dasz) (C04.genBundles F.le dasz).S0 (lineWorld L tail sup) = (res, none)
+      ∧ UnitsGet F L tail sup res := by
+  obtain ⟨res, hrun, hall⟩ := infoLinePrograms_forest TieC05.gen_structs (fun _ => gen_env_ok _) TieC05.stmt_list_name
+    F dasz hdasz hwf L tail sup hlines
+  obtain ⟨hlen, hget⟩ := hall.get
+  have hpl : ∀ (us : List UnitDesc) (o : Nat), (placeInfo F o us).length = us.length := by
+    intro us
+    induction us with
+    | nil => intro o; rfl
+    | cons u us ih => intro o; simp [placeInfo, ih]
+  refine ⟨res, hrun, by rw [← hlen, hpl], fun k p hk => ?_⟩
+  show ∃ r, _ ∧ UnitGets F L tail sup p.2 r
+  unfold UnitGets
+  obtain ⟨r, hr, hcu, hres⟩ := hget k p hk
+  have hu : p.2 ∈ F.units := Proofs.C04.mem_placeInfo F _ _ p (List.mem_of_getElem? hk)
+  refine ⟨r.2, by rw [hr, ← hcu], ?_⟩
+  unfold UnitResult at hres
+  cases hst : stmtRef p.2.tree.root with
+  | absent => rw [hst] at hres; exact hres
+  | «at» v =>
+    rw [hst] at hres
+    obtain ⟨i, d, hd, hv⟩ := linesOK_at_ex hlines p.2 hu v hst
+    obtain ⟨x, hx, hlp⟩ := hres i d hd hv
+    obtain ⟨es, hdec, hrows⟩ := decode_LPIs F L tail sup hlines Model.genEnumDecode i d hd x hlp
+    have hE : x.lp.program_end_offset = v + d.enc.length := by rw [hlp.1, hv]; rfl
+    refine ⟨i, d, hd, hv, x, es, hx, by rw [hlp.1]; rfl, by rw [hlp.1, hv]; rfl, hE, ?_, hrows⟩
+    rw [hdec, hE, hv]
+  | other => exact absurd hst (linesOK_not_other hlines p.2 hu)
+
+/-- **No DW_AT_stmt_list, from section bytes.**  `line_program_for_CU` on such a unit of a well-formed forest
+    returns `None`, whatever `.debug_line` holds (or if it is absent), and leaves `_linetable_cache` alone. -/
+theorem stmt_list_absent_from_sections (F : Forest) (dasz : Nat) (hdasz : dasz = 4 ∨ dasz = 8)
+    (hwf : wfForestB C04.genNames F = true) (W : LineWorld) (p : Nat × UnitDesc) (hp : p ∈ placeInfo F 0 F.units)
+    (hst : stmtRef p.2.tree.root = .absent) (cache : LCache) :
+    lineProgramForUnit W (C04.infoCtx F dasz p) cache = .ok (none, cache) :=
+  unit_absent TieC05.stmt_list_name F dasz hdasz hwf W p hp hst cache
+
+/-- **DW_AT_stmt_list beyond the section.**  The attribute holds an offset at which `.debug_line` — any bytes — has
+    fewer than four bytes left (at or beyond its end in particular): ELFParseError, nothing is cached. -/
+theorem stmt_list_beyond_section (F : Forest) (dasz : Nat) (hdasz : dasz = 4 ∨ dasz = 8)
+    (hwf : wfForestB C04.genNames F = true) (W : LineWorld) (data : Bytes) (hW : W.line = some data)
+    (p : Nat × UnitDesc) (hp : p ∈ placeInfo F 0 F.units) (v : Nat) (hst : stmtRef p.2.tree.root = .at v)
+    (hlt : data.length < v + 4) (cache : LCache) (hf : cache.find? (·.1 == v) = none) :
+    lineProgramForUnit W (C04.infoCtx F dasz p) cache = .error .elfParseError :=
+  unit_beyond TieC05.gen_structs TieC05.stmt_list_name F dasz hdasz hwf W data hW p hp v hst hlt cache hf
+
+/-- … and with no `.debug_line` at all: AttributeError (`self.debug_line_sec` is None) -/
+theorem stmt_list_without_debug_line (F : Forest) (dasz : Nat) (hdasz : dasz = 4 ∨ dasz = 8)
+    (hwf : wfForestB C04.genNames F = true) (W : LineWorld) (hW : W.line = none)
+    (p : Nat × UnitDesc) (hp : p ∈ placeInfo F 0 F.units) (v : Nat) (hst : stmtRef p.2.tree.root = .at v)
+    (cache : LCache) (hf : cache.find? (·.1 == v) = none) :
+    lineProgramForUnit W (C04.infoCtx F dasz p) cache = .error .attributeError :=
+  unit_no_section TieC05.stmt_list_name F dasz hdasz hwf W hW p hp v hst cache hf
+
+/-- **Two units sharing one program** (`linetable_cache_coherent` at the level of sections).  From any coherent
+    state of `_linetable_cache` (`LCacheOK`; the empty cache is: `lcacheOK_nil`): the first unit gets the object `x`
+    of the program its DW_AT_stmt_list designates, and a second unit holding the same offset — of whatever
+    version, through whatever lineptr form — gets THE SAME object from the cache, which is not changed again. -/
+theorem linetable_cache_shared (F : Forest) (dasz : Nat) (hdasz : dasz = 4 ∨ dasz = 8)
+    (hwf : wfForestB C04.genNames F = true) (L : List LineUnitDesc) (tail : Bytes) (sup : Option Bytes)
+    (hlines : linesOKB F L tail sup = true) (p q : Nat × UnitDesc) (hp : p ∈ placeInfo F 0 F.units)
+    (hq : q ∈ placeInfo F 0 F.units) (v : Nat) (hsp : stmtRef p.2.tree.root = .at v) (hsq : stmtRef q.2.tree.root = .at v)
+    (cache : LCache) (hc : LCacheOK F L sup cache) :
+    ∃ i d x cache', L[i]? = some d ∧ v = lineOff L i
+      ∧ lineProgramForUnit (lineWorld L tail sup) (C04.infoCtx F dasz p) cache = .ok (some x, cache')
+      ∧ x.lp = lpOfX d.h (strSecsOf F sup) d.ext d.body v
+      ∧ lineProgramForUnit (lineWorld L tail sup) (C04.infoCtx F dasz q) cache' = .ok (some x, cache')
+      ∧ LCacheOK F L sup cache' := by
+  have hu : p.2 ∈ F.units := Proofs.C04.mem_placeInfo F _ _ p hp
+  obtain ⟨i, d, hd, hv⟩ := linesOK_at_ex hlines p.2 hu v hsp
+  obtain ⟨x, cache', hrun, hx, hc', hfind⟩ := unit_at TieC05.gen_structs (fun _ => gen_env_ok _) TieC05.stmt_list_name
+    F dasz hdasz hwf L tail sup hlines p hp v hsp i d hd hv cache hc
+  exact ⟨i, d, x, cache', hd, hv, hrun, by rw [hx.1, hv], unit_cached TieC05.stmt_list_name F dasz hdasz hwf _ q hq v hsq
+    cache' v x hfind, hc'⟩
+
+/-! ### whole files (composition with C11's view and, through it, C01)
+
+  `Model.LineInfo.fileLinePrograms P fuel loader bytes relocate followLinks` is
+  `[(cu, di.line_program_for_CU(cu)) for cu in di.iter_CUs()]` on
+  `di = ELFFile(BytesIO(bytes)).get_dwarf_info(relocate_dwarf_sections = relocate, follow_links = followLinks)`.
+  The hypotheses about the file are exactly those of `Props.C11.view_of_file_z` (C11's whole-file theorem: `bytes`
+  carries a well-formed ELF description `d` that stores `content`, every DWARF section plainly, gABI-compressed
+  (SHF_COMPRESSED) or in the legacy `.zdebug` framing, in any mix); `ContentIs content F L tail` says that content is,
+  keyword by keyword, the encoding of the forest `F` and of the `.debug_line` description (`.debug_types` is free). -/
+
+/-- **Whole file, every encoding: the same line programs as from the sections.**  However the DWARF sections are stored
+    in the file — `.debug_line` plain, gABI-compressed or `.zdebug`, likewise `.debug_info`, `.debug_abbrev` and the
+    string sections — `get_dwarf_info()` followed by `line_program_for_CU` on every unit computes exactly what
+    `line_programs_from_sections` is about (default address size = the file's class / 8). -/
+theorem line_programs_of_file_eq {P : Model.C11.Params} {deflate : Nat → Bytes → Bytes} (hP : C11.SpecParams P)
+    (henv : P.env.enumDecode "ENUM_ELFCOMPRESS_TYPE" 1 = some "ELFCOMPRESS_ZLIB") (hz : Proofs.C11.ZlibOk P.X deflate)
+    (hnames : ∀ k ∈ lineKeys, k ∈ P.names.map (·.1))
+    (d : Spec.ElfDesc) (bytes : Bytes) (obs : Spec.ElfObs)
+    (hwf : d.wfZ P.env = true) (hl : Spec.Layout d bytes) (ho : d.observe P.env = .ok obs)
+    (hph : Model.C11.hasPhantomBytes obs.header = .ok false)
+    (fuel : Nat) (loader : Option Model.C11.Loader) (relocate followLinks : Bool) (content : Proofs.C11.Content) (m : Val)
+    (hm : obs.header.getField "e_machine" = .ok m) {allowed : Proofs.C11.Enc → Prop}
+    (hh : Proofs.C11.HoldsD P.names deflate d obs relocate content allowed)
+    (hlink : Model.C11.linkTarget obs.sections loader followLinks = none)
+    (hsup : followLinks = false ∨
+      ((∃ DS, P.dwarfStructsFor ⟨d.le, 32, d.cls / 8, 2⟩ = some DS) ∧
+        content "debug_sup_sec" = none ∧ content "gnu_debugaltlink_sec" = none))
+    (F : Forest) (hle : F.le = d.le) (L : List LineUnitDesc) (tail : Bytes) (hc : ContentIs content F L tail) :
+    fileLinePrograms P (fuel + 1) loader bytes relocate followLinks
+      = .ok (infoLinePrograms (C04.forestDInfo F (d.cls / 8)) (C04.genBundles F.le (d.cls / 8)).S0 (lineWorld L tail none)) := by
+  have hcls : d.cls / 8 = 4 ∨ d.cls / 8 = 8 := by
+    rcases (Proofs.wfZ_facts hwf).cls with h | h <;> simp [h]
+  unfold fileLinePrograms
+  rw [C11.view_of_file_z hP henv hz d bytes obs hwf hl ho hph fuel loader relocate followLinks content m hm hh hlink hsup]
+  simp only [Except.map]
+  rw [← hle, viewLinePrograms_content P.names hnames content F L tail hc (d.cls / 8) hcls]
+
+/-- **End to end from the bytes of a file.**  `line_programs_from_sections` for a file carrying the sections in any
+    encoding: every unit of `iter_CUs()` gets the program its DW_AT_stmt_list designates — header, extent, rows. -/
+theorem line_programs_of_file {P : Model.C11.Params} {deflate : Nat → Bytes → Bytes} (hP : C11.SpecParams P)
+    (henv : P.env.enumDecode "ENUM_ELFCOMPRESS_TYPE" 1 = some "ELFCOMPRESS_ZLIB") (hz : Proofs.C11.ZlibOk P.X deflate)
+    (hnames : ∀ k ∈ lineKeys, k ∈ P.names.map (·.1))
+    (d : Spec.ElfDesc) (bytes : Bytes) (obs : Spec.ElfObs)
+    (hwf : d.wfZ P.env = true) (hl : Spec.Layout d bytes) (ho : d.observe P.env = .ok obs)
+    (hph : Model.C11.hasPhantomBytes obs.header = .ok false)
+    (fuel : Nat) (loader : Option Model.C11.Loader) (relocate followLinks : Bool) (content : Proofs.C11.Content) (m : Val)
+    (hm : obs.header.getField "e_machine" = .ok m) {allowed : Proofs.C11.Enc → Prop}
+    (hh : Proofs.C11.HoldsD P.names deflate d obs relocate content allowed)
+    (hlink : Model.C11.linkTarget obs.sections loader followLinks = none)
+    (hsup : followLinks = false ∨
+      ((∃ DS, P.dwarfStructsFor ⟨d.le, 32, d.cls / 8, 2⟩ = some DS) ∧
+        content "debug_sup_sec" = none ∧ content "gnu_debugaltlink_sec" = none))
+    (F : Forest) (hle : F.le = d.le) (hwfF : wfForestB C04.genNames F = true) (L : List LineUnitDesc) (tail : Bytes)
+    (hlines : linesOKB F L tail none = true) (hc : ContentIs content F L tail) :
+    ∃ res, fileLinePrograms P (fuel + 1) loader bytes relocate followLinks = .ok (res, none)
+      ∧ UnitsGet F L tail none res := by
+  have hcls : d.cls / 8 = 4 ∨ d.cls / 8 = 8 := by
+    rcases (Proofs.wfZ_facts hwf).cls with h | h <;> simp [h]
+  obtain ⟨res, hrun, hres⟩ := line_programs_from_sections F (d.cls / 8) hcls hwfF L tail none hlines
+  refine ⟨res, ?_, hres⟩
+  rw [line_programs_of_file_eq hP henv hz hnames d bytes obs hwf hl ho hph fuel loader relocate followLinks content m hm hh
+    hlink hsup F hle L tail hc, hrun]
+
+/-- the reader's section-name table regenerated from `get_dwarf_info` (Props/TieC11 `section_names`) has every
+    keyword the line-program path reads: `hnames` of the two theorems above holds of the parameters the driver runs -/
+theorem gen_names_ok : ∀ k ∈ lineKeys, k ∈ Gen.c11SectionNames.map (·.1) := by decide
+
+/-! ### non-vacuity: a forest of four units over a `.debug_line` of two programs
+
+  `.debug_line`: one stray byte, the version 5 program of `exHeader5` (DWARF64; strings through .debug_line_str /
+  .debug_str; three extension bytes), two stray bytes, the version 4 program of `exHeader` (VLIW parameters,
+  DW_LNE_define_file, an unknown extended opcode), one stray byte.  `.debug_info`: a DWARF 4 unit naming the SECOND
+  program through DW_FORM_sec_offset, a DWARF 3 unit naming the same program through DW_FORM_data4, a DWARF 2 unit
+  without DW_AT_stmt_list, a DWARF 5 unit in 64-bit format naming the FIRST program. -/
+
+def exLines : List LineUnitDesc :=
+  [{ gap := [0xAA], h := exHeader5, ext := exExt, is := exProgram5 },
+   { gap := [0xBB, 0xBB], h := exHeader, ext := [], is := exProgram }]
+
+def exDeclSec : Spec.C04.AbbrevDecl :=
+  { code := 1, tag := 0x11, children := false, specs := [{ name := 0x03, form := 0x08 }, { name := 0x10, form := 0x17 }] }
+def exDeclData4 : Spec.C04.AbbrevDecl :=
+  { code := 2, tag := 0x11, children := false, specs := [{ name := 0x10, form := 0x06 }] }
+def exDeclNone : Spec.C04.AbbrevDecl :=
+  { code := 3, tag := 0x11, children := false, specs := [{ name := 0x03, form := 0x08 }] }
+
+def exLineForest : Forest :=
+  { le := true,
+    tables := [{ decls := [exDeclSec, exDeclData4, exDeclNone] }],
+    units := [{ fmt64 := false, version := 4, asz := 8, table := 0,
+                tree := .mk { decl := exDeclSec, attrs := [{ form := 0x08, op := .str [0x61] }, { form := 0x17, op := .nat 105 }] } [] 1 },
+              { fmt64 := false, version := 3, asz := 8, table := 0,
+                tree := .mk { decl := exDeclData4, attrs := [{ form := 0x06, op := .nat 105 }] } [] 1 },
+              { fmt64 := false, version := 2, asz := 8, table := 0,
+                tree := .mk { decl := exDeclNone, attrs := [{ form := 0x08, op := .str [0x62] }] } [] 1 },
+              { fmt64 := true, version := 5, asz := 8, table := 0,
+                tree := .mk { decl := exDeclSec, attrs := [{ form := 0x08, op := .str [] }, { form := 0x17, op := .nat 1 }] } [] 1 }],
+    secs := { str := some exSecs5.str, lineStr := some exSecs5.lineStr } }
+
+theorem exLineForest_wf : wfForestB C04.genNames exLineForest = true := by decide +kernel
+theorem exLines_ok : linesOKB exLineForest exLines [0xCC] none = true := by decide +kernel
+
+example : exLineForest.units.map (fun u => stmtRef u.tree.root) = [.at 105, .at 105, .absent, .at 1] := by decide
+example : (lineOff exLines 0, lineOff exLines 1, (encLineSec exLines [0xCC]).length) = (1, 105, 187) := by decide +kernel
+
+/-- `line_programs_from_sections` applies to it -/
+example := line_programs_from_sections exLineForest 8 (Or.inr rfl) exLineForest_wf exLines [0xCC] none exLines_ok
+
+/-- the hypotheses of `linetable_cache_shared` (units 0 and 1, at offsets 0 and 25 of `.debug_info`) -/
+example : ∃ p q, p ∈ placeInfo exLineForest 0 exLineForest.units ∧ q ∈ placeInfo exLineForest 0 exLineForest.units ∧ p.1 < q.1
+    ∧ stmtRef p.2.tree.root = .at 105 ∧ stmtRef q.2.tree.root = .at 105 :=
+  ⟨(placeInfo exLineForest 0 exLineForest.units)[0], (placeInfo exLineForest 0 exLineForest.units)[1],
+   List.getElem_mem _, List.getElem_mem _, by decide +kernel, by decide +kernel, by decide +kernel⟩
+
+/-- … of `stmt_list_absent_from_sections` (unit 2) -/
+example : ∃ p, p ∈ placeInfo exLineForest 0 exLineForest.units ∧ stmtRef p.2.tree.root = .absent :=
+  ⟨(placeInfo exLineForest 0 exLineForest.units)[2], List.getElem_mem _, by decide +kernel⟩
+
+/-- … of `stmt_list_beyond_section`: the same forest over a `.debug_line` of three bytes -/
+example : ∃ p, p ∈ placeInfo exLineForest 0 exLineForest.units ∧ stmtRef p.2.tree.root = .at 105
+    ∧ ([1, 2, 3] : Bytes).length < 105 + 4 :=
+  ⟨(placeInfo exLineForest 0 exLineForest.units)[0], List.getElem_mem _, by decide +kernel, by decide⟩
+
+/-- the composed model run by the kernel on the example: four units; units 0 and 1 get the version 4 program at 105,
+    unit 2 none, unit 3 the version 5 program at 1; each program decodes to the standard's rows -/
+theorem line_programs_instance :
+    (let W := lineWorld exLines [0xCC] none
+     let r := infoLinePrograms (C04.forestDInfo exLineForest 8) (C04.genBundles true 8).S0 W
+     r.2.isNone && r.1.map (fun cr => match cr.2 with
+        | .ok (some x) =>
+          (match decodeLP Model.genEnumDecode specConsts (encLineSec exLines [0xCC]) x with
+           | .ok (es, _, tell) => some (x.lp.program_start_offset, tell, (rowsOf es).length)
+           | .error _ => none)
+        | _ => none)
+       == [some (105 + headerSizeX exHeader [], 186, (stdRun exHeader.p exProgram).length),
+           some (105 + headerSizeX exHeader [], 186, (stdRun exHeader.p exProgram).length),
+           none,
+           some (1 + headerSizeX exHeader5 exExt, 103, (stdRun exHeader5.p exProgram5).length)]) = true := by
+  decide +kernel
+
+/-! ### non-vacuity of the whole-file theorems: the example above in an ELF file, `.debug_line` stored three ways
+
+  A 64-bit little-endian description (null section, `.shstrtab`, the five DWARF sections of the example) is assembled by
+  C01's Spec assembler; the file model is run on the bytes with the REGENERATED parameters (section-name table, struct
+  bundles; zlib replaced by the identity: the compressed forms carry the payload behind their framing) and must deliver the
+  line programs `line_programs_instance` lists.  Evaluated at build time (`Con.encodeRaw` / `decodeRaw` do not reduce in
+  the kernel).  The Prop-valued hypotheses of C11's whole-file theorem (`HoldsD`, `Layout`) are discharged for
+  one-section files in Props/C11; here the executable side shows a file of the described shape exists and behaves so. -/
+
+private def fxShdr (ty flags off size : Nat) : Fields :=
+  [("sh_type", .int ty), ("sh_flags", .int flags), ("sh_addr", .int 0), ("sh_offset", .int off), ("sh_size", .int size),
+   ("sh_link", .int 0), ("sh_info", .int 0), ("sh_addralign", .int 1), ("sh_entsize", .int 0)]
+
+/-- name offsets in the section-name string table `\0 name \0 name \0 …` -/
+private def fxNameOff (names : List Bytes) (i : Nat) : Nat := 1 + ((names.take i).map (·.length + 1)).sum
+
+private def fxStrtab (names : List Bytes) : Bytes := [0] ++ names.flatMap (· ++ [0])
+
+/-- `pre`: ".debug_" or ".zdebug_"; `enc` / `flags`: how every DWARF section is stored; `encL` / `flagsL`: `.debug_line` -/
+private def fxDesc (pre : String) (enc encL : Bytes → Bytes) (flags flagsL : Nat) : Spec.ElfDesc :=
+  let names : List Bytes := ".shstrtab".toUTF8.toList ::
+    ["info", "abbrev", "str", "line_str", "line"].map fun s => (pre ++ s).toUTF8.toList
+  let sec (i : Nat) (off fl : Nat) (body : Bytes) : Spec.SecDesc := ⟨names[i]!, fxShdr 1 fl off body.length, some body, fxNameOff names i⟩
+  { cls := 64, le := true, mclass := "EM_X86_64", solaris := false, core := false,
+    ehdr := [("EI_VERSION", .int 1), ("e_type", .int 1), ("e_machine", .int 62), ("e_version", .int 1), ("e_ehsize", .int 64)],
+    shoff := 0x1000, phoff := 0, shentsize := 64, phentsize := 0,
+    sections := [⟨[], fxShdr 0 0 0 0, none, 0⟩,
+                 ⟨names[0]!, fxShdr 3 0 0x100 (fxStrtab names).length, some (fxStrtab names), fxNameOff names 0⟩,
+                 sec 1 0x200 flags (enc (Spec.C04.infoSec exLineForest)),
+                 sec 2 0x400 flags (enc (Spec.C04.encTables exLineForest.tables)),
+                 sec 3 0x500 flags (enc exSecs5.str),
+                 sec 4 0x600 flags (enc exSecs5.lineStr),
+                 sec 5 0x800 flagsL (encL (encLineSec exLines [0xCC]))],
+    segments := [], shstrndx := 1 }
+
+private def fxParams : Model.C11.Params :=
+  { env := Model.elfEnv, structsFor := Model.elfStructsFor, machineClassOf := Model.machineClassOf,
+    machineArchOf := Model.Reloc.machineArchOf, dwarfStructsFor := Model.dwarfStructsFor, names := Gen.c11SectionNames,
+    X := ⟨fun d k => some (if k = 0 then d else d.take k), fun _ => 0⟩ }
+
+private def fxOk (pre : String) (enc encL : Bytes → Bytes) (flags flagsL : Nat) : Bool :=
+  let d := fxDesc pre enc encL flags flagsL
+  d.wfZ Model.elfEnv &&
+    (match d.assemble 0 with
+     | none => false
+     | some bytes =>
+       match fileLinePrograms fxParams 2 none bytes false false with
+       | .error _ => false
+       | .ok r =>
+         r.2.isNone && r.1.map (fun cr => match cr.2 with
+            | .ok (some x) =>
+              (match decodeLP Model.genEnumDecode specConsts (encLineSec exLines [0xCC]) x with
+               | .ok (es, _, tell) => some (x.lp.program_start_offset, tell, (rowsOf es).length)
+               | .error _ => none)
+            | _ => none)
+           == [some (145, 186, 3), some (145, 186, 3), none, some (93, 103, 2)])
+
+-- every section plain
+#guard fxOk ".debug_" id id 0 0
+-- `.debug_line` gABI-compressed (SHF_COMPRESSED, `Elf64_Chdr`), the others plain
+#guard fxOk ".debug_" id (fun b => Spec.C11.gabiBody 64 true b.length 1 b) 0 0x800
+-- every section gABI-compressed
+#guard fxOk ".debug_" (fun b => Spec.C11.gabiBody 64 true b.length 1 b) (fun b => Spec.C11.gabiBody 64 true b.length 1 b) 0x800 0x800
+-- a `.zdebug` file: every section in the legacy framing ("ZLIB" + big-endian size)
+#guard fxOk ".zdebug_" (fun b => Spec.C11.zdebugBody b.length b) (fun b => Spec.C11.zdebugBody b.length b) 0 0
 
 end PyElf.Props.C05
